@@ -148,6 +148,12 @@ def gen_case(ch: Chooser, excl=(), placement=None, cwd=None):
                 files["proj/docs/user/pages/more.md"] = "title: More\n\nmore\n"
                 feats.append("copy_subdir-prefix-escape")
             head = "title: Pages\n" + (f"copy_subdir: {cs}\n" if cs else "")
+            if "ordered_subpage_escape" not in excl and opts["page_dir"] == "./pages" and ch.bool(1, 4):
+                # a sub-page entry that names a file outside the page directory
+                head += "ordered_subpage: sub/../../../escaped.md\n"
+                files["proj/pages/sub/index.md"] = "title: Sub\n\nsub\n"
+                files["escaped.md"] = "title: Escaped\n\na page outside the page directory\n"
+                feats.append("ordered_subpage-escape")
             files["proj/pages/index.md"] = head + "\nText.\n"
             files["proj/pages/figs/x.png"] = "fig\n"
             files["proj/pages/more.md"] = "title: More\n\nmore\n"
